@@ -9,6 +9,7 @@ EVBAK=$(mktemp -d); cp evidence/*.json "$EVBAK"/   # the evidence of seeded runs
 for D in seeded/*/; do
   SID=$(basename "$D")
   PROP=$(echo "$SID" | cut -d- -f1)
+  [ -f "/verif/$D/RETIRED" ] && { echo "$SID: retired (no longer breaks the property on the repaired tree)"; continue; }
   git -C /repo apply "/verif/$D/patch.diff" 2>/dev/null || { echo "$SID: patch does not apply (code moved on)"; continue; }
   OUT=$(timeout 3000 ./check "$PROP" --tier "$TIER" 2>&1 | grep -E "^(VIOLATION|OK|KNOWN)")
   git -C /repo checkout -- . 
